@@ -14,7 +14,7 @@ INFO = {
         'float, bool and mixed vectors at once); scores are checked against ranks = -scores the same way; ranks omitted vs ranks=[0..n-1] '
         'is a concrete comparison; the result is also compared with the independent float reference posterior for W (1e-9), so that a tie lost identically in every encoding is still seen. Path feasibility and exhaustiveness are decided by z3 (linear real/int arithmetic, exact for all finite numbers).'),
     'bounds': {
-        'quick': 'all five models; n=2,3 teams with all kinds (int/float/bool per position), n=4 with all-int and all-float vectors; ranks and scores; team sizes 1-2',
+        'quick': 'all five models; n=2,3 teams with all kinds (int/float/bool per position), n=4 with all-int and all-float vectors; ranks and scores; team sizes 1-2; n=3 int/float also with a gamma callback that uses its rank argument',
         'thorough': '+ n=4 with all kinds, n=5 all-int / all-float',
     },
     'outside': ['NaN / infinite rank values (not a weak order)', 'vectors longer than 4 (5 single-kind)', 'numeric kinds other than int/float/bool'],
@@ -36,13 +36,30 @@ def jobs(tier):
             for n, kinds, budget in cells:
                 out.append({'name': f'{key}-{selector}-n{n}-{kinds}', 'model': key, 'shape': list(SHAPES[n]),
                             'selector': selector, 'kinds': kinds, 'budget': budget, 'cost': budget})
+            # a gamma callback that uses its rank argument: the callback must see the dense tie-aware rank, not the caller's label
+            out.append({'name': f'{key}-{selector}-n3-intfloat-rankgamma', 'model': key, 'shape': list(SHAPES[3]), 'selector': selector,
+                        'kinds': 'intfloat', 'gamma': True, 'budget': 240, 'cost': 200})
         out.append({'name': f'{key}-omitted', 'model': key, 'mode': 'omitted', 'budget': 60, 'cost': 1})
     return out
+
+
+def _rank_gamma(c, k, mu, sigma_squared, team, rank):
+    return 1.0 / (k * (1.0 + 0.5 * rank))
+
+
+def _cfg(spec_or_cand):
+    return {'gamma': _rank_gamma} if spec_or_cand.get('gamma') else {}
 
 
 def _same(a, b):
     return all(H.rel_close(x[0], y[0], 1e-12, 1e-300) and H.rel_close(x[1], y[1], 1e-12, 1e-300)
                for ta, tb in zip(a, b) for x, y in zip(ta, tb)) and [len(t) for t in a] == [len(t) for t in b]
+
+
+def _concrete(out):
+    """the numbers returned must not depend on the rank VALUES (only on their order): a symbolic result means a value leaked through"""
+    from sx import core
+    return not any(isinstance(v, core.Sym) for t in out for p in t for v in (p.mu, p.sigma))
 
 
 def run_job(spec, ctx):
@@ -64,7 +81,8 @@ def run_job(spec, ctx):
     shape, selector = tuple(spec['shape']), spec['selector']
     n = len(shape)
     first = True
-    for kind, val, eng in O.iter_outcomes(spec, ctx):
+    cfg = _cfg(spec)
+    for kind, val, eng in O.iter_outcomes(spec, ctx, cfg=cfg):
         if ctx.candidates and len(ctx.candidates) >= 3:
             break
         if kind == 'exc':
@@ -76,10 +94,10 @@ def run_job(spec, ctx):
             ctx.vacuity['false_ob_sat'] += 1
             first = False
         W = val['W']
-        m2, t2 = O.build_concrete(key, shape)
+        m2, t2 = O.build_concrete(key, shape, **cfg)
         ref = [[(p.mu, p.sigma) for p in t] for t in m2.rate(t2, ranks=list(W))]
-        ok = val['exc'] is None and _same([[(p.mu, p.sigma) for p in t] for t in val['out']], ref)
-        if ok:
+        ok = val['exc'] is None and _concrete(val['out']) and _same([[(p.mu, p.sigma) for p in t] for t in val['out']], ref)
+        if ok and not cfg:
             # second, code-independent oracle for "tied exactly when equal": the float reference posterior for W
             # (a defect that loses ties the same way in every encoding is invisible to the self-comparison above)
             from harness import c02
@@ -92,7 +110,7 @@ def run_job(spec, ctx):
                            'path_condition': [str(c) for c in eng.pc][:12]})
         else:
             vals = O.witness_ranks(eng, n)
-            cand = None if vals is None else {'mode': 'vec', 'model': key, 'shape': list(shape), 'selector': selector,
+            cand = None if vals is None else {'mode': 'vec', 'model': key, 'shape': list(shape), 'selector': selector, 'gamma': bool(cfg),
                                               'vals': O.encode_vals(vals), '__alts__': O.nasty_vectors(n)}
             ctx.ob(f'{selector} with weak order {W}: result differs from canonical ranks', 'sat' if cand else 'unknown', cand)
 
@@ -112,7 +130,8 @@ def replay(cand):
                 'detail': f'C03 {H.MODEL_NAMES[key]} shape={shape}: rate(teams) != rate(teams, ranks=[0..n-1])'}
     selector = cand['selector']
     vals = O.decode_vals(cand['vals'])
-    m, t1 = O.build_concrete(key, shape)
+    cfg = _cfg(cand)
+    m, t1 = O.build_concrete(key, shape, **cfg)
     try:
         out = [[(p.mu, p.sigma) for p in t] for t in m.rate(t1, **{selector: list(vals)})]
         exc = None
@@ -120,10 +139,10 @@ def replay(cand):
         out, exc = None, e
     ordv = [-v for v in vals] if selector == 'scores' else list(vals)
     W = O.dense(ordv)
-    m2, t2 = O.build_concrete(key, shape)
+    m2, t2 = O.build_concrete(key, shape, **cfg)
     ref = [[(p.mu, p.sigma) for p in t] for t in m2.rate(t2, ranks=list(W))]
     bad = exc is not None or not _same(out, ref)
-    if not bad:
+    if not bad and not cfg:
         from harness import c02
         ref2 = c02.reference(key, shape, W, False)
         bad = not all(H.rel_close(x[0], y[0], 1e-9, 1e-12) and H.rel_close(x[1], y[1], 1e-9, 1e-12)
@@ -131,6 +150,6 @@ def replay(cand):
         ref = ref2
     kinds = ','.join(type(v).__name__ for v in vals)
     return {'violated': bool(bad),
-            'key': f'{key}:{selector}:kinds={kinds}:order={"".join(map(str, W))}',
+            'key': f'{key}:{selector}:kinds={kinds}:order={"".join(map(str, W))}' + (':rankgamma' if cfg else ''),
             'detail': f'C03 {H.MODEL_NAMES[key]} shape={shape} {selector}={vals!r} (weak order {W}): '
                       + (f'raised {exc!r}' if exc is not None else f'result {out} != result for ranks={W}: {ref}')}
